@@ -64,6 +64,48 @@ fn laws(ctx: &mut Ctx, name: &str, spec: &CostSpec, nmax: usize, evals: &mut u64
     }
 }
 
+/// a curve collected from an iterator: None if all laws hold
+fn from_iter_violation(v: &[u64]) -> Option<String> {
+    let vv = v.to_vec();
+    let r = catch(move || {
+        let c: wcet::Curve = vv.iter().map(|x| s(*x)).collect();
+        let n = 2 * vv.len() + 2;
+        let cum: Vec<u64> = (0..=n).map(|k| su(c.cost_of_jobs(k))).collect();
+        let items: Vec<u64> = c.job_cost_iter().take(n).map(su).collect();
+        let least: Vec<u64> = (0..=n).map(|k| su(c.least_wcet(k))).collect();
+        (cum, items, least)
+    });
+    match r {
+        Err(e) => Some(format!("panic {e}")),
+        Ok((cum, items, least)) => {
+            if cum[0] != 0 {
+                return Some(format!("cost_of_jobs(0) = {}", cum[0]));
+            }
+            if cum.windows(2).any(|w| w[0] > w[1]) {
+                return Some(format!("cost_of_jobs not monotone: {:?}", cum));
+            }
+            let mut run = 0;
+            for k in 1..=v.len() {
+                run = run.max(v[k - 1]);
+                if cum[k] != run {
+                    return Some(format!("cost_of_jobs({k}) = {}, the running maximum of the input is {run}", cum[k]));
+                }
+            }
+            let mut acc = 0;
+            for k in 1..=items.len() {
+                acc += items[k - 1];
+                if acc != cum[k] {
+                    return Some(format!("the first {k} items of job_cost_iter sum to {acc}, cost_of_jobs({k}) = {}", cum[k]));
+                }
+                if least[k] > *items[..k].iter().min().unwrap() {
+                    return Some(format!("least_wcet({k}) = {} exceeds an item of {:?}", least[k], &items[..k]));
+                }
+            }
+            None
+        }
+    }
+}
+
 // ---------------- cache histories on wcet::ExtrapolatingCurve ----------------
 
 #[derive(Clone, Copy, Debug, Serialize, Deserialize, PartialEq, Eq)]
@@ -244,6 +286,19 @@ pub fn run(ctx: &mut Ctx) -> (String, Value, Vec<String>) {
             }
         }
     }
+    // (b') curves collected from an iterator of cumulative costs: the constructor repairs
+    // non-monotone input by a running maximum, so EVERY vector is a legal input
+    for len in 1..=(if quick { 4 } else { 5 }) {
+        for v in all_seqs(len, if quick { 3 } else { 4 }) {
+            evals += 1;
+            if v.windows(2).any(|w| w[0] > w[1]) {
+                nontrivial += 1;
+            }
+            if let Some(w) = from_iter_violation(&v) {
+                ctx.violation("wcet::Curve::from_iter#laws", &format!("cumulative costs {:?} collected into a Curve: {w}", v), "cost-iter", json!({"cumulative": v}));
+            }
+        }
+    }
     // (c) query histories on two clones sharing the cache == fresh object per query
     let depth = if quick { 4 } else { 6 };
     let alpha = alphabet();
@@ -299,7 +354,7 @@ pub fn run(ctx: &mut Ctx) -> (String, Value, Vec<String>) {
     let cov = json!({
         "evaluations": evals,
         "distinct_nontrivial": nontrivial,
-        "rule": format!("(a) every cost trace of length <= {tl} over 0..={hi} x max_n 1..={mn}: every run length up to twice the trace, plus extrapolation arguments; (b) laws for every scalar, multiframe vector (length <= 4 over 0..=3) and monotone sub-additive cumulative prefix; (c) every query history up to depth {depth} over a 9-letter alphabet on two clones vs a fresh object per query; non-trivial = non-constant traces of length > 2 / vectors / prefixes / histories (half counted)"),
+        "rule": format!("(a) every cost trace of length <= {tl} over 0..={hi} x max_n 1..={mn}: every run length up to twice the trace, plus extrapolation arguments; (b) laws for every scalar, multiframe vector (length <= 4 over 0..=3) and monotone sub-additive cumulative prefix, and for every (also non-monotone) cumulative vector of length <= 4/5 collected through FromIterator; (c) every query history up to depth {depth} over a 9-letter alphabet on two clones vs a fresh object per query; non-trivial = non-constant traces of length > 2 / vectors / prefixes / histories (half counted)"),
         "histories": nh,
         "samples": samples,
         "exhaustive": true,
@@ -329,6 +384,12 @@ pub fn replay(kind: &str, case: &Value, key: &str) -> bool {
                 return r.unwrap_or(true);
             }
             true
+        }
+        "cost-iter" => {
+            let v: Vec<u64> = serde_json::from_value(case["cumulative"].clone()).unwrap();
+            let r = from_iter_violation(&v);
+            println!("replay: {:?}", r);
+            r.is_some()
         }
         "cost" => {
             let spec: CostSpec = serde_json::from_value(case["spec"].clone()).unwrap();
